@@ -150,6 +150,11 @@ class Builder:
                 self.memo[("cond", c)] = (self._leaf(c) if k == "t" else
                                           (not_ if k == "not" else operator.invert)(self._leaf(c[1])))
             return self.memo[("cond", c)]
+        if self.share_conds == "ops" and k in ("and", "or", "andf", "orf"):
+            # s = and_(a, b) / s = a | b written ONCE and used in several places of the condition
+            if ("cond", c) not in self.memo:
+                self.memo[("cond", c)] = self._leaf(c)
+            return self.memo[("cond", c)]
         if k == "const":        # ("const", "True"/"False"): a plain Python bool given as a condition
             return c[1] == "True"
         return self._leaf(c)
